@@ -52,6 +52,49 @@ Qed.
 Lemma column_positions_length widths x0 bsx : length (column_positions exactQ x0 bsx widths) = length widths.
 Proof. revert x0. induction widths; intros x0; simpl; auto. Qed.
 
+(* ---- a table split across pages: after all pages are laid out every fragment
+   still reads the column positions of ITS OWN page (the store of arrays only
+   grows; a slice header made for page k points below the arrays of the later
+   pages) *)
+Lemma layout_pages_store ar bsx pages : forall st st' ss,
+  layout_pages ar st bsx pages = (st', ss) ->
+  exists ext, st' = st ++ ext /\
+    map (slice_read st') ss = map (fun p => column_positions ar (fst p) bsx (snd p)) pages /\
+    Forall (fun s => (sl_arr s >= length st)%nat) ss.
+Proof.
+  induction pages as [|p r IH]; intros st st' ss H; simpl in H.
+  - injection H as <- <-. exists []. rewrite app_nil_r. repeat split; constructor.
+  - destruct (layout_pages ar (st ++ [column_positions ar (fst p) bsx (snd p)]) bsx r) as [st2 ss2] eqn:E.
+    injection H as <- <-.
+    destruct (IH _ _ _ E) as [ext [Est [Emap Hge]]].
+    exists ([column_positions ar (fst p) bsx (snd p)] ++ ext).
+    split; [rewrite Est, <- app_assoc; reflexivity|]. split.
+    + cbn [map]. f_equal; [|exact Emap].
+      unfold slice_read. cbn [sl_arr sl_len]. rewrite Est, <- app_assoc.
+      rewrite app_nth2 by lia. rewrite Nat.sub_diag. cbn [app nth]. apply firstn_all.
+    + constructor; [cbn [sl_arr]; lia|].
+      eapply Forall_impl; [|exact Hge]. intros s Hs. cbn beta in Hs. rewrite app_length in Hs. cbn in Hs. lia.
+Qed.
+
+Theorem fragments_positions_spec ar bsx pages :
+  fragments_positions ar bsx pages = map (fun p => column_positions ar (fst p) bsx (snd p)) pages.
+Proof.
+  unfold fragments_positions. destruct (layout_pages ar [] bsx pages) as [st ss] eqn:E.
+  destruct (layout_pages_store ar bsx pages _ _ _ E) as [ext [_ [Emap _]]]. exact Emap.
+Qed.
+
+(* hence the closed form holds for every fragment, with that fragment's page *)
+Theorem fragment_column_positions bsx pages k x0 widths j :
+  nth_error pages k = Some (x0, widths) -> (j < length widths)%nat ->
+  nth j (nth k (fragments_positions exactQ bsx pages) []) 0 == col_left x0 bsx widths j.
+Proof.
+  intros Hk Hj. rewrite fragments_positions_spec.
+  assert (E : nth k (map (fun p => column_positions exactQ (fst p) bsx (snd p)) pages) []
+              = column_positions exactQ x0 bsx widths).
+  { apply nth_error_nth. rewrite nth_error_map, Hk. reflexivity. }
+  rewrite E. apply column_positions_spec. exact Hj.
+Qed.
+
 (* adjacent columns are exactly border-spacing apart *)
 Theorem columns_adjacent x0 bsx widths j :
   (S j < length widths)%nat ->
